@@ -23,6 +23,7 @@ var compNames = []string{
 	"votes", "nonce", "bconf", "best", "sigs", "evid", "gest", "pad", "alive", "ext", "fee", "val",
 	"xfers", "jobs", "usc", "denoms", "lnode", "erc20", "bal", "acct",
 	"params", "chains", "compass", "deploy", "bridge", "observed", "replen", "lnset",
+	"dmeta", // bank metadata of the factory denoms the principal is the current admin of
 }
 
 var knownJobs = []string{"job-1", "job-2", "job-new"}
@@ -172,7 +173,7 @@ func (w *world) project(p int) []string {
 	// factory denoms are attributed to their CURRENT admin (the admin role can be handed over with MsgChangeAdmin; the
 	// creator baked into factory/<creator>/<sub> is then no longer the owner), and so are both bridge mapping records
 	// (denom -> erc20 and erc20 -> denom) of such a denom
-	var dens, erc []string
+	var dens, erc, dmeta []string
 	mine := map[string]bool{}
 	for _, cr := range []sdk.AccAddress{w.addr(pA), w.addr(pB), w.v2().Addr, w.gov} {
 		for _, d := range a.TokenFactoryKeeper.GetDenomsFromCreator(ctx, cr.String()) {
@@ -182,7 +183,8 @@ func (w *world) project(p int) []string {
 			}
 			mine[d] = true
 			md, _ := a.BankKeeper.GetDenomMetaData(ctx, d)
-			dens = append(dens, fmt.Sprintf("%s/%s/%s/%s", d, am.Admin, h(md.String()), a.BankKeeper.GetSupply(ctx, d).Amount))
+			dens = append(dens, fmt.Sprintf("%s/%s/%s", d, am.Admin, a.BankKeeper.GetSupply(ctx, d).Amount))
+			dmeta = append(dmeta, d+"/"+h(md.String()))
 			if e, err := a.SkywayKeeper.GetERC20OfDenom(ctx, chain, d); err == nil && e != nil {
 				erc = append(erc, "d2e:"+d+"="+e.GetAddress().Hex())
 			}
@@ -203,6 +205,7 @@ func (w *world) project(p int) []string {
 		}
 	}
 	set("denoms", dens)
+	set("dmeta", dmeta)
 	set("erc20", erc)
 	var ln []string
 	if l, err := a.PalomaKeeper.GetLightNodeClientLicense(ctx, acc.String()); err == nil && l != nil {
